@@ -167,6 +167,30 @@ func loadKnown(path string) []knownFinding {
 	return f.Findings
 }
 
+var knownCache []knownFinding
+var knownLoaded bool
+
+// IsKnown reports whether a violation signature of a property is listed as an open known finding
+// (workers use it to keep exploring past listed findings instead of stopping at them).
+func IsKnown(property, signature string) bool {
+	if !knownLoaded {
+		dir := os.Getenv("VERIF_DIR")
+		if dir == "" {
+			dir = "/verif"
+		}
+		knownCache = loadKnown(filepath.Join(dir, "known_findings.json"))
+		knownLoaded = true
+	}
+	for _, k := range knownCache {
+		if k.Property == property && k.Status != "fixed" {
+			if ok, _ := regexp.MatchString(k.Signature, signature); ok {
+				return true
+			}
+		}
+	}
+	return false
+}
+
 // Main is the entry point of the vrun binary.
 func Main() {
 	if len(os.Args) < 2 {
